@@ -43,6 +43,8 @@ package wire
 //@ chanopen[C06] message.Request: keyed(ch)
 //@ lockinv[C06] ClientConn.mu: self.replyCh != nil && forall(id, uint32, imp(has(self.replyCh, id), keyed(self.replyCh[id]) && chkey(self.replyCh[id]) == id))
 //@ lockinv[C06,C15] ClientConn.mu: forall(id, uint32, imp(has(self.replyCh, id), cap(self.replyCh[id]) >= 1))   // every registered reply channel has a free slot for its single reply
+// every constructor defaults a nil Logger to log.NewNop(): the logger of a live object is never nil
+//@ typeassume ClientConn: self.logger != nil
 //@ typeassume ClientConn: !keyed(self.msgRequestCh)
 //@ typeassume ClientConn: !ackKeyed(self.msgUpstreamCallAckCh) && !replyKeyed(self.msgDownstreamCallCh)   // inbox queues are not keyed reply channels (C16)
 
